@@ -83,6 +83,22 @@ def graph_rewrite(t):
     return t
 
 
+def _is_community_lookup(c):
+    """eval(f'g.community_{name}') / getattr(g, f'community_{name}') / g.community_<name>(...)"""
+    f = strip(c[1])
+    if f == ("glob", "builtins.eval"):
+        return True
+    if f == ("glob", "builtins.getattr") and len(c[2]) >= 2:
+        n = strip(c[2][1])
+        if head(n) == "fstr" and n[1] and is_const(n[1][0]) and str(n[1][0][2]).startswith("community_"):
+            return True
+        if is_const(n) and str(n[2]).startswith("community_"):
+            return True
+        if head(n) == "bin" and n[1] == "+" and is_const(strip(n[2])) and str(strip(n[2])[2]).startswith("community_"):
+            return True
+    return head(f) == "attr" and f[2].startswith("community_")
+
+
 def run(r):
     rep = r.rep
     rep.explanation = "The two clustering functions were reduced to canonical call terms and compared with the specification; the edge subscript was rank-checked; the ordering of simplify() was checked."
@@ -108,13 +124,16 @@ def run(r):
     okg = g is not None and any(head(x) == "call" and strip(x[1]) == ("glob", "igraph.Graph") for x in walk(g))
     rep.ob("C15-CFG", q, okg, "the local name used by the community call ('g') is the graph built from the edges", where_of(r.P, s.func, s.func.node), expected="g = igraph.Graph(edges, n=len(nodes))", found=show(g, 60), key="graph name")
     simp = [e for e in s.events_of("call") if head(strip(strip(e["term"])[1])) == "attr" and strip(strip(e["term"])[1])[2] == "simplify"]
-    evs = [e for e in s.events_of("call") if strip(strip(e["term"])[1]) == ("glob", "builtins.eval")]
-    ok = bool(simp) and bool(evs) and simp[0].seq < evs[0].seq and any(head(x) == "call" and strip(x[1]) == ("glob", "igraph.Graph") for x in walk(strip(strip(simp[0]["term"])[1])[1]))
-    rep.ob("C15-CFG", q, ok, "multi-edges (both orientations of every neighbour pair) are collapsed before community detection", where_of(r.P, s.func, (simp[0] if simp else evs[0] if evs else s.events[0]).node),
-           expected="g.simplify() before g.community_*()", found="present" if ok else "missing / after", key="simplify first")
+    evs = [e for e in s.events_of("call") if _is_community_lookup(strip(e["term"]))]
+    if not evs:
+        rep.require(False, "C15-CFG: no community-detection call site recognised (eval / getattr / g.community_*); cannot decide")
+    else:
+        ok = bool(simp) and simp[0].seq < evs[0].seq and any(head(x) == "call" and strip(x[1]) == ("glob", "igraph.Graph") for x in walk(strip(strip(simp[0]["term"])[1])[1]))
+        rep.ob("C15-CFG", q, ok, "multi-edges (both orientations of every neighbour pair) are collapsed before community detection", where_of(r.P, s.func, (simp[0] if simp else evs[0]).node),
+               expected="g.simplify() before g.community_*()", found="present" if ok else "missing / after", key="simplify first")
     for rule in ("C15-PIPE", "C15-GRAPH", "C15-SHP"):
         rep.floor(rule, 1)
-    rep.floor("C15-CFG", 2)
+    rep.floor("C15-CFG", 1)
 
 
 from ..selftest import V  # noqa: E402
